@@ -1,5 +1,6 @@
 import Driver.Common
 import AranyaV.Spec.Braid
+import AranyaV.Spec.Synth
 /-!
 Shared request handling for the graph-level drivers (C01–C05, …): the harness sends the
 command set as `cmd` lines (see `harness/src/gk.rs::cmd_line`) and then asks spec-level
@@ -72,6 +73,10 @@ def showErr : BraidErr → String
   | .parallelFinalize => "err ParallelFinalize"
   | .malformed => "err malformed"
 
+def showTerm (g : Graph) : HTerm → String
+  | .leaf i => showId g i
+  | .merge l r => s!"M({showTerm g l},{showTerm g r})"
+
 /-- spec-level requests shared by all graph drivers; `none` = not a request of this layer -/
 def step (g : Graph) (toks : List String) : Option (Graph × String) :=
   match toks with
@@ -114,6 +119,16 @@ def step (g : Graph) (toks : List String) : Option (Graph × String) :=
     | some i => match stateAt g i with
       | .ok s => some (g, showFacts s)
       | .error e => some (g, showErr e)
+  | ["synth"] =>
+    match synth (frontier g) with
+    | some t => some (g, showTerm g t)
+    | none => some (g, "err empty")
+  | ["synth", hs] =>
+    match parseIds hs with
+    | none => some (g, "bad-op")
+    | some hs => match synth hs with
+      | some t => some (g, showTerm g t)
+      | none => some (g, "err empty")
   | ["anc", a, b] =>
     match hexNat? a, hexNat? b with
     | some a, some b => some (g, if anc g a b then "1" else "0")
